@@ -270,6 +270,15 @@ func (fr *frame) call(c *ssa.CallCommon, instr ssa.Value, st *state, pos string)
 	if b, ok := c.Value.(*ssa.Builtin); ok {
 		return fr.builtin(b, c, instr, st, pos)
 	}
+	if fr.fc != nil && fr.fc.GuardLock != "" && !fr.inline {
+		if n := callName(c); n != "" {
+			for _, g := range fr.fc.GuardNames {
+				if g == n {
+					fr.obligeHere("guard["+n+"]", "", st, fr.heldTerm(st), pos)
+				}
+			}
+		}
+	}
 	var args []T
 	argOf := func(v ssa.Value) T {
 		if _, isFn := v.(*ssa.Function); isFn {
@@ -1138,4 +1147,13 @@ func resultUsed(v ssa.Value, idx int) bool {
 		}
 	}
 	return false
+}
+
+// heldTerm: the ghost flag of the contract's guard lock in state st.
+func (fr *frame) heldTerm(st *state) string {
+	e, err := parseSpec("held(" + fr.fc.GuardLock + ")")
+	if err != nil {
+		stale("guarded: bad lock expression %q: %v", fr.fc.GuardLock, err)
+	}
+	return fr.specEnv(st, nil).evalBool(e)
 }
